@@ -1,0 +1,32 @@
+//go:build verif
+
+package newton
+
+// add-only hook of the C20 check: newton_min WITHOUT the Wolfe line search (getPhi == nil), i.e. the branch
+// `for { x2.VsubV(x1, t1); if Vequals(x1, x2) {...}; ...; t1.VmulS(t1, c) }` of newton_min, which the public
+// RunMin never reaches (it always supplies getPhi).
+
+import . "github.com/pbenner/autodiff"
+
+func VerifC20RunMinPlain(f_ func(ConstVector) (MagicScalar, error), x ConstVector, args ...interface{}) (Vector, error) {
+  n := x.Dim()
+  y := NullFloat64()
+  g := NullDenseFloat64Vector(n)
+  H := NullDenseFloat64Matrix(n, n)
+  X := AsDenseReal64Vector(x)
+  f := func(x ConstVector) (Scalar, Vector, Matrix, error) {
+    X.Set(x)
+    if err := X.Variables(2); err != nil {
+      return nil, nil, nil, err
+    }
+    Y, err := f_(X)
+    if err != nil {
+      return nil, nil, nil, err
+    }
+    y.SetFloat64(Y.GetFloat64())
+    CopyGradient(g, Y)
+    CopyHessian (H, Y)
+    return y, g, H, nil
+  }
+  return run_min(f, x, nil, args...)
+}
